@@ -470,6 +470,10 @@ package fsutil
 //@   at call Validator.HandleChange: id_is_stat_position: !metaOnly && specCanRequest(p.Stat.Mode) ==> haskey(r.files, path) && r.files[path] == uint32(cnt(StatRecv) - old(cnt(StatRecv)) - 1)
 // an ancestor that was held back is forwarded once: after the pending ancestors were replayed for
 // a selected entry none is left pending when the entry itself is forwarded
+// pending ancestors leave the stack one by one while the top is not the new entry's parent (the walk
+// has left them), or all at once right after they were replayed for a selected entry - never
+// wholesale while an ancestor of later entries may still be among them
+//@   at call stack.clear: pending_dropped_only_after_replay: metadataTransfer && !metaOnly
 //@   at call dynamicWalker.update#2: pending_ancestors_flushed: metadataTransfer ==> len(metadataParents.items) == 0
 //@   at call dynamicWalker.update: validated_before_forward: arg1 != nil ==> when(OrderOK) > when(RecvMsg) && when(LinkOK) > when(RecvMsg)
 //@   at call io.WriteCloser.Write: data_to_registered_pipe: haskey(r.pipes, p.ID) && len(p.Data) != 0
@@ -1159,6 +1163,9 @@ package fsutil
 //@   loop 0 invariant workers: 0 <= i && i <= 4 && cnt(GoSpawn) == old(cnt(GoSpawn)) + 1 + i && cnt(Progress) == old(cnt(Progress))
 //@   ensures six_goroutines: cnt(GoSpawn) == old(cnt(GoSpawn)) + 6
 //@   ensures final_progress: s.progressCb != nil ==> cnt(Progress) == old(cnt(Progress)) + 1 && arg(Progress, 1) && when(Progress) > when(GoSpawn)
+// the final call goes through the same locked reporter as every other one: it reports the total
+// as it is THEN (not a value captured when the run started) and cannot overtake a worker's report
+//@   ensures final_progress_is_the_current_total_under_the_lock: s.progressCb != nil ==> when(MuLock) < when(Progress) && when(Progress) < when(MuUnlock) && arg(Progress, 0) == s.progressCurrent
 //@   ensures no_progress_callback: s.progressCb == nil ==> cnt(Progress) == old(cnt(Progress))
 
 // the walker goroutine: a failed walk is reported to the peer with an ERR packet
